@@ -94,6 +94,10 @@ def V(key, clause, detail):
     return {"key": key, "clause": clause, "detail": detail}
 
 
+class HelperHang(Exception):
+    pass
+
+
 def case_readline(seed, tape, opts):
     """The CLI's interactive entry: the real _rlcompleter.CodeInputter on the
     real input helper. The 'user' is the harness: between keystrokes the
@@ -138,8 +142,7 @@ def case_readline(seed, tape, opts):
             r.addBoth(box.append)
             sim.run(3000, until=lambda: bool(box), max_time=60)
             if not box:
-                raise HarnessError("readline case: helper Deferred never "
-                                   "fired")
+                raise HelperHang(getattr(f, "__name__", "helper call"))
             if isinstance(box[0], Failure):
                 box[0].raiseException()
             return box[0]
@@ -173,6 +176,12 @@ def case_readline(seed, tape, opts):
                     E.WormholeError) as e:
                 session.append(("tab", text, type(e).__name__))
                 continue
+            except HelperHang as e:
+                VV("C19.readline_helper_hangs", "interactive entry: the "
+                   "wordlist becomes available once the nameplate is claimed",
+                   "TAB on %r: %s() never fired although the connection is "
+                   "up (session %r)" % (text, e, session))
+                break
             except Exception as e:
                 VV("C19.readline_exception." + type(e).__name__, "interactive "
                    "entry follows docs/api.rst", "TAB on %r raised %r "
